@@ -37,12 +37,13 @@ Section SessionInv.
   Lemma reset_WInv w : WInv (fst (reset o_reset I w)).
   Proof. rewrite reset_eq. simpl. split; [apply Inv_init|apply empty_cache_ok]. Qed.
 
-  Lemma new_observer_world k w :
-    let w' := fst (new_observer I k w) in
+  Lemma new_observer_world k sub w :
+    let w' := fst (new_observer_gen I k sub w) in
     core w' = core w /\ filt w' = filt w /\ wcache w' = wcache w.
   Proof.
-    destruct w as [d c f os ss]. unfold new_observer, bind, get. cbn.
+    destruct w as [d c f os ss]. unfold new_observer_gen, bind, get. cbn.
     match goal with |- context [if ?b then _ else _] => destruct b end; cbn; auto.
+    destruct sub; cbn; auto.
   Qed.
 
   Lemma create_or_get_world k al w :
@@ -50,7 +51,7 @@ Section SessionInv.
     core w' = core w /\ filt w' = filt w /\ wcache w' = wcache w.
   Proof.
     unfold create_or_get, bind, get. cbn.
-    destruct (find_sub (objs w) k al (subs w)); [cbn; auto|apply new_observer_world].
+    destruct (find_sub (objs w) k al (subs w)); [cbn; auto|apply (new_observer_world k true)].
   Qed.
 
   Lemma unsubscribe_world i (w : wld) :
